@@ -13,7 +13,7 @@ def run(tier, seed):
     res = {"violations": [], "broken": [], "coverage": {}}
     specs = [("cv_mix", {"VRT_MODE": 0}, 2000, 40000), ("cv_mix", {"VRT_MODE": 1}, 1500, 30000), ("cv_mix", {"VRT_MODE": 2}, 1000, 20000),
              ("cv_mix", {"VRT_MODE": 3}, 1500, 30000), ("cv_mix", {"VRT_MODE": 4}, 3000, 60000), ("waitn_mix", {"VRT_KIND": 2}, 1500, 30000),
-             ("cv_mix", {"VRT_MODE": 0}, 800, 15000, "binary")]
+             ("cv_mix", {"VRT_MODE": 0}, 800, 15000, "binary"), ("cv_mix", {"VRT_PLAINPM": 40}, 1500, 30000), ("muwait_mix", {"VRT_MODE": 3}, 2500, 50000)]
     cov = scen_common.run_scenarios(res, specs, tier, seed, {"C04", "C05"} | scen_common.LIVENESS | scen_common.CRASHES | scen_common.MEMORY)
     cov["rule"] = ("cv_mix: token monitor with plain/timed/cancellable/reader/wait_n waiters and signallers inside or after the critical "
                    "section (every waiter without deadline must finish: a lost or swallowed wake-up ends stuck), readers + ONE signal, signal "
